@@ -1,1 +1,186 @@
+(* Property C18 - "Text codecs and numeric conversions are exact inverses and bounds-safe".
+   Only statements closed by `exact`, each followed by Print Assumptions, plus non-vacuity Examples.
+
+   Clause of the property text                                   -> theorem(s) below
+   ---------------------------------------------------------------------------------------------------------
+   toString/fromString inverse on every code point <= U+10FFFF    utf8_roundtrip (all 1,114,112 code points,
+     and agree with UTF-8                                           structural proof by range, no sweep),
+                                                                    utf8_text_roundtrip (sequences),
+                                                                    utf8_decoder_reads_first_sequence,
+                                                                    utf8_encoder_total (what happens >= 0x110000),
+                                                                    utf8_surrogates_not_excluded (D800..DFFF are laid
+                                                                    out as 3-byte sequences: the code excludes nothing)
+   length/isValid/fromString never read beyond the byte range,    utf8_readers_in_bounds, utf8_from_string_never_fails,
+     arbitrary bytes (incl. truncated sequences, offset table)      utf8_is_valid_never_fails, utf8_from_string_truncated,
+                                                                    utf8_is_valid_accepts_text
+   integer conversions exact over the full range of each type     integer_roundtrips_in_range, integer_roundtrips_cast,
+     (libc printf/strto* MODELLED as reference functions: trusted)  integer_prints_canonical, integer_parses_canonical
+   fromHex yields the upper-case hexadecimal text                 hex_is_upper_hex (hex digit table regenerated)
+   fromBase64 returns the original bytes for every RFC 4648       base64_inverts_rfc4648 (all byte strings: induction
+     encoding                                                       over 3-byte groups + 3 tails), base64_table_inverts_alphabet
+   ... while handling every other byte string without             base64_in_bounds (input, 123-entry table, output buffer,
+     out-of-bounds access                                           no read of an unwritten cell), base64_as_found_refuted
+                                                                    (the code before fix 01 leaves the table at byte 0x80)
+   Bytes are lists of Z with wf_bytes (0 <= b < 256); from_string and from_base64 need not even that. *)
 From Coq Require Import ZArith List.
+From Common Require Import Words ListAux.
+From Codec Require Import Gen_Codec CodecSpec CodecModel CodecProofs CodecProofsInt.
+Import ListNotations.
+Local Open Scope Z_scope.
+
+(* ---- UTF-8 ------------------------------------------------------------------------------------------- *)
+
+Theorem utf8_roundtrip : forall cp, 0 <= cp < 1114112 ->
+  to_string cp = rfc3629 cp /\ from_string (to_string cp) = Ok cp /\ is_valid (to_string cp) = Ok true.
+Proof. exact utf8_roundtrip_all. Qed.
+Print Assumptions utf8_roundtrip.
+Example utf8_roundtrip_nv :
+  to_string 8364 = [226; 130; 172] /\ from_string [226; 130; 172] = Ok 8364 /\
+  to_string 1114111 = [244; 143; 191; 191] /\ from_string (to_string 2048) = Ok 2048 /\ to_string 2047 = [223; 191].
+Proof. vm_compute. repeat split. Qed.
+
+Theorem utf8_text_roundtrip : forall cps, (forall cp, In cp cps -> 0 <= cp < 1114112) ->
+  to_string_n cps = flat_map rfc3629 cps /\ is_valid (to_string_n cps) = Ok true.
+Proof. exact (fun cps H => conj (to_string_n_rfc3629 cps H) (is_valid_to_string_n cps H)). Qed.
+Print Assumptions utf8_text_roundtrip.
+Example utf8_text_roundtrip_nv : to_string_n [72; 228; 8364; 128512] = [72; 195; 164; 226; 130; 172; 240; 159; 152; 128].
+Proof. vm_compute. reflexivity. Qed.
+
+Theorem utf8_decoder_reads_first_sequence : forall bs cp, utf8_first bs = Some cp -> from_string bs = Ok cp.
+Proof. exact from_string_utf8_first. Qed.
+Print Assumptions utf8_decoder_reads_first_sequence.
+Example utf8_decoder_reads_first_sequence_nv : utf8_first [226; 130; 172; 65; 255] = Some 8364.
+Proof. vm_compute. reflexivity. Qed.
+
+Theorem utf8_encoder_total : forall cp, 0 <= cp < 4294967296 ->
+  to_string cp = if cp <? 1114112 then rfc3629 cp else [].
+Proof. exact to_string_all_uint32. Qed.
+Print Assumptions utf8_encoder_total.
+Example utf8_encoder_total_nv : to_string 1114112 = [] /\ to_string 4294967295 = [].
+Proof. vm_compute. split; reflexivity. Qed.
+
+Theorem utf8_surrogates_not_excluded : forall cp, 55296 <= cp <= 57343 ->
+  to_string cp = [224 + cp / 4096; 128 + (cp / 64) mod 64; 128 + cp mod 64]
+  /\ from_string (to_string cp) = Ok cp /\ is_valid (to_string cp) = Ok true.
+Proof. exact surrogates_encoded. Qed.
+Print Assumptions utf8_surrogates_not_excluded.
+Example utf8_surrogates_not_excluded_nv : to_string 55296 = [237; 160; 128] /\ from_string [237; 191; 191] = Ok 57343.
+Proof. vm_compute. split; reflexivity. Qed.
+
+Theorem utf8_readers_in_bounds : forall bs, wf_bytes bs = true ->
+  (exists v, from_string bs = Ok v) /\ is_valid bs = Ok (layout_valid bs) /\
+  (forall b, In b bs -> utf8_length b = lead_len b).
+Proof. exact readers_in_bounds. Qed.
+Print Assumptions utf8_readers_in_bounds.
+Example utf8_readers_in_bounds_nv :
+  from_string [240; 159; 152] = Ok 0 /\ is_valid [240; 159; 152] = Ok false /\ is_valid [65; 226; 130] = Ok false /\
+  is_valid [226; 130; 172; 65] = Ok true /\ from_string [248; 128; 128; 128; 128] = Ok 248 /\ utf8_length 248 = 0.
+Proof. vm_compute. repeat split. Qed.
+
+Theorem utf8_from_string_never_fails : forall bs e, from_string bs <> Err e.
+Proof. exact from_string_never_fails. Qed.
+Print Assumptions utf8_from_string_never_fails.
+
+Theorem utf8_is_valid_never_fails : forall bs, wf_bytes bs = true -> forall e, is_valid bs <> Err e.
+Proof. exact is_valid_never_fails. Qed.
+Print Assumptions utf8_is_valid_never_fails.
+Example utf8_never_fails_nv : wf_bytes [255; 240; 128; 224] = true /\ is_valid [255; 240; 128; 224] = Ok false
+  /\ from_string [224; 128] = Ok 0 /\ is_valid [195] = Ok false.
+Proof. vm_compute. repeat split. Qed.
+
+Theorem utf8_from_string_truncated : forall b0 t, 128 <= b0 < 256 ->
+  Z.of_nat (length (b0 :: t)) < lead_len b0 -> from_string (b0 :: t) = Ok 0.
+Proof. exact from_string_truncated. Qed.
+Print Assumptions utf8_from_string_truncated.
+Example utf8_from_string_truncated_nv : Z.of_nat (length [244; 143; 191]) < lead_len 244.
+Proof. vm_compute. reflexivity. Qed.
+
+Theorem utf8_is_valid_accepts_text : forall bs, utf8_text bs = true -> is_valid bs = Ok true.
+Proof. exact is_valid_utf8_text. Qed.
+Print Assumptions utf8_is_valid_accepts_text.
+Example utf8_is_valid_accepts_text_nv : utf8_text [72; 195; 164; 226; 130; 172; 240; 159; 152; 128] = true /\ utf8_text [192; 128] = false.
+Proof. vm_compute. split; reflexivity. Qed.
+
+(* ---- integers (libc modelled) ------------------------------------------------------------------------- *)
+
+Theorem integer_roundtrips_in_range :
+  (forall v, int_min <= v <= int_max -> to_int (from_int v) = v) /\
+  (forall v, 0 <= v <= uint_max -> to_uint (from_uint v) = v) /\
+  (forall v, int64_min <= v <= int64_max -> to_int64 (from_int64 v) = v) /\
+  (forall v, 0 <= v <= uint64_max -> to_uint64 (from_uint64 v) = v).
+Proof. exact CodecProofsInt.integer_roundtrips_in_range. Qed.
+Print Assumptions integer_roundtrips_in_range.
+Example integer_roundtrips_nv :
+  from_int int_min = [45; 50; 49; 52; 55; 52; 56; 51; 54; 52; 56] /\ to_int (from_int int_min) = int_min /\
+  to_uint64 (from_uint64 uint64_max) = uint64_max /\ to_int64 (from_int64 int64_min) = int64_min /\
+  to_uint (from_uint uint_max) = uint_max /\ from_uint64 0 = [48].
+Proof. vm_compute. repeat split. Qed.
+
+Theorem integer_roundtrips_cast : forall v,
+  to_int (from_int v) = sx32 v /\ to_uint (from_uint v) = w32 v /\
+  to_int64 (from_int64 v) = sx64 v /\ to_uint64 (from_uint64 v) = w64 v.
+Proof. exact (fun v => conj (int_roundtrip v) (conj (uint_roundtrip v) (conj (int64_roundtrip v) (uint64_roundtrip v)))). Qed.
+Print Assumptions integer_roundtrips_cast.
+Example integer_roundtrips_cast_nv : to_int (from_int 2147483648) = -2147483648 /\ to_uint (from_uint (-1)) = 4294967295.
+Proof. vm_compute. split; reflexivity. Qed.
+
+Theorem integer_prints_canonical : forall v,
+  (decimal_of (from_int v) (sx32 v) /\ from_int v = ref_decimal (sx32 v)) /\
+  (decimal_of (from_uint v) (w32 v) /\ from_uint v = ref_decimal (w32 v)) /\
+  (decimal_of (from_int64 v) (sx64 v) /\ from_int64 v = ref_decimal (sx64 v)) /\
+  (decimal_of (from_uint64 v) (w64 v) /\ from_uint64 v = ref_decimal (w64 v)).
+Proof. exact CodecProofsInt.integer_prints_canonical. Qed.
+Print Assumptions integer_prints_canonical.
+Example integer_prints_canonical_nv : from_int64 (-9223372036854775808) =
+  [45; 57; 50; 50; 51; 51; 55; 50; 48; 51; 54; 56; 53; 52; 55; 55; 53; 56; 48; 56] /\ from_uint 1000 = [49; 48; 48; 48].
+Proof. vm_compute. split; reflexivity. Qed.
+
+Theorem integer_parses_canonical : forall s v, decimal_of s v ->
+  (int_min <= v <= int_max -> to_int s = v) /\
+  (0 <= v <= uint_max -> to_uint s = v) /\
+  (int64_min <= v <= int64_max -> to_int64 s = v) /\
+  (0 <= v <= uint64_max -> to_uint64 s = v).
+Proof. exact CodecProofsInt.integer_parses_canonical. Qed.
+Print Assumptions integer_parses_canonical.
+Example integer_parses_canonical_nv : decimal_of [45; 49; 50] (-12) /\ to_int [45; 49; 50] = -12 /\
+  to_uint64 [49; 56; 52; 52; 54; 55; 52; 52; 48; 55; 51; 55; 48; 57; 53; 53; 49; 54; 49; 53] = uint64_max.
+Proof. split; [exists [49; 50]; repeat split|vm_compute; split; reflexivity]. Qed.
+
+(* ---- hex ------------------------------------------------------------------------------------------------ *)
+
+Theorem hex_is_upper_hex : forall data, wf_bytes data = true -> from_hex data = Ok (upper_hex data).
+Proof. exact from_hex_upper_hex. Qed.
+Print Assumptions hex_is_upper_hex.
+Example hex_is_upper_hex_nv : from_hex [0; 171; 255; 9; 160] = Ok [48; 48; 65; 66; 70; 70; 48; 57; 65; 48].
+Proof. vm_compute. reflexivity. Qed.
+
+(* ---- base64 ----------------------------------------------------------------------------------------------- *)
+
+Theorem base64_inverts_rfc4648 : forall bs, wf_bytes bs = true -> from_base64 (rfc4648_encode bs) = Ok bs.
+Proof. exact from_base64_inverts. Qed.
+Print Assumptions base64_inverts_rfc4648.
+Example base64_inverts_rfc4648_nv :
+  rfc4648_encode [102; 111; 111; 98; 97] = [90; 109; 57; 118; 89; 109; 69; 61] /\      (* "fooba" -> "Zm9vYmE=" (RFC 4648 section 10) *)
+  from_base64 [90; 109; 57; 118; 89; 109; 69; 61] = Ok [102; 111; 111; 98; 97] /\
+  from_base64 (rfc4648_encode [255]) = Ok [255] /\ from_base64 (rfc4648_encode [0; 128; 255; 254]) = Ok [0; 128; 255; 254].
+Proof. vm_compute. repeat split. Qed.
+
+Theorem base64_table_inverts_alphabet : forall k, 0 <= k < 64 ->
+  (w8 (b64_char k) >? 122) = false /\ nth (Z.to_nat (w8 (b64_char k))) gen_base64de 0 = k.
+Proof. exact CodecProofs.base64_table_inverts_alphabet. Qed.
+Print Assumptions base64_table_inverts_alphabet.
+Example base64_table_nv : length gen_base64de = 123%nat /\ nth 122 gen_base64de 0 = 51 /\ nth 43 gen_base64de 0 = 62.
+Proof. vm_compute. repeat split. Qed.
+
+Theorem base64_in_bounds : forall inp, (exists r, from_base64 inp = Ok r) /\ (forall e, from_base64 inp <> Err e).
+Proof. exact (fun inp => conj (from_base64_in_bounds inp) (from_base64_never_fails inp)). Qed.
+Print Assumptions base64_in_bounds.
+Example base64_in_bounds_nv :
+  from_base64 [128; 65; 65; 65] = Ok [] /\ from_base64 [255; 255; 255; 255] = Ok [] /\ from_base64 [65; 123; 65; 65] = Ok [] /\
+  from_base64 [65; 65; 61; 65] = Ok [0] /\ from_base64 [61; 61; 61; 61] = Ok [] /\ from_base64 [65; 65; 65] = Ok [].
+Proof. vm_compute. repeat split. Qed.
+
+Theorem base64_as_found_refuted :
+  wf_bytes [128; 65; 65; 65] = true /\ from_base64_unrepaired [128; 65; 65; 65] = Err OutOfBounds.
+Proof. exact from_base64_unrepaired_out_of_bounds. Qed.
+Print Assumptions base64_as_found_refuted.
